@@ -287,6 +287,46 @@ fn reason_of(k: SampleRejectedStatusKind) -> Option<Reason> {
     }
 }
 
+/// Wait until the network has delivered everything that is due: the number of delivered datagrams
+/// is stable over three consecutive checks and nothing is in flight. (A fixed sleep is not enough
+/// when the virtual clock advances per clock read and several timers expire at once.)
+pub async fn settle_net(w: &World) {
+    let mut stable = 0;
+    let mut last = w.net.counters().delivered;
+    for _ in 0..300 {
+        w.sim.sleep(300 * US).await;
+        let c = w.net.counters().delivered;
+        if c == last && w.net.inflight() == 0 {
+            stable += 1;
+            if stable >= 3 {
+                break;
+            }
+        } else {
+            stable = 0;
+            last = c;
+        }
+    }
+}
+
+/// A sample the model expects is absent: wait a second and look again, so that a late arrival is
+/// never reported as a violation. Returns true if the sample is still absent.
+pub async fn confirm_absent(w: &World, env: &Env, handles: &BTreeMap<u32, InstanceHandle>, id: (u32, u32)) -> bool {
+    w.sim.sleep(SEC).await;
+    settle_net(w).await;
+    match do_read(env, handles, &ALL_READ).await {
+        Some(Ok(v)) => !v.iter().any(|o| o.id == Some(id)),
+        _ => true,
+    }
+}
+
+fn parse_missing_id(what: &str) -> Option<(u32, u32)> {
+    let s = what.split("stored sample w").nth(1)?;
+    let mut it = s.split(|c: char| !c.is_ascii_digit());
+    let w = it.next()?.parse::<u32>().ok()?;
+    let q = it.next()?.parse::<u32>().ok()?;
+    Some((w, q))
+}
+
 const ALL_READ: ReadOp = ReadOp { take: false, sel: Sel::All, max: MAX_ALL, ss: SS_ANY, vs: VS_ANY, is: IS_ANY };
 
 /// The model-based run for C18..C23 and C25.
@@ -316,7 +356,7 @@ pub async fn scenario(w: World, h: Hist, trace: bool) -> Outcome {
 
     macro_rules! settle {
         () => {
-            sim.sleep(2 * MS).await;
+            settle_net(&w).await;
         };
     }
 
@@ -334,7 +374,6 @@ pub async fn scenario(w: World, h: Hist, trace: bool) -> Outcome {
                 } else if !*on && frozen {
                     w.net.set_frozen(false);
                     frozen = false;
-                    settle!();
                     settle!();
                     out.stat("batches_released", 1);
                     let pend = std::mem::take(&mut pending_expect);
@@ -434,7 +473,6 @@ pub async fn scenario(w: World, h: Hist, trace: bool) -> Outcome {
                     w.net.set_frozen(false);
                     frozen = false;
                     settle!();
-                    settle!();
                     let pend = std::mem::take(&mut pending_expect);
                     if check_rejections(&env, &mut model, &mut out, &mut rej_seen, &pend, &prop, oi).await {
                         break 'ops;
@@ -454,7 +492,7 @@ pub async fn scenario(w: World, h: Hist, trace: bool) -> Outcome {
                     out.trace.push(format!("   -> {}", obs_str(&res)));
                 }
                 out.stat("reader_ops", 1);
-                let stop = judge_collection(&env, &mut model, &mut out, r, &res, oi, &arrivals).await;
+                let stop = judge_collection(&w, &env, &mut model, &mut out, r, &res, oi, &arrivals).await;
                 if stop {
                     break 'ops;
                 }
@@ -464,10 +502,9 @@ pub async fn scenario(w: World, h: Hist, trace: bool) -> Outcome {
                     w.net.set_frozen(false);
                     frozen = false;
                     settle!();
-                    settle!();
                     pending_expect.clear();
                 }
-                let stop = walk(&env, &mut model, &mut out, *take, *max, *ss, *vs, *is, oi, trace, &arrivals).await;
+                let stop = walk(&w, &env, &mut model, &mut out, *take, *max, *ss, *vs, *is, oi, trace, &arrivals).await;
                 if stop {
                     break 'ops;
                 }
@@ -684,6 +721,7 @@ fn push_finding(out: &mut Outcome, sig: String, what: String, oi: usize) {
 
 /// Per-property judgement of one returned collection. Returns true if the history must stop.
 async fn judge_collection(
+    w: &World,
     env: &Env,
     model: &mut Model,
     out: &mut Outcome,
@@ -738,6 +776,15 @@ async fn judge_collection(
         if let Some(raw) = f.sig.strip_prefix('~') {
             // raw selection mismatch: attribute it per property
             stop = true;
+            if raw.starts_with("missing") {
+                if let Some(id) = parse_missing_id(&f.what) {
+                    if !confirm_absent(w, env, &model.handles, id).await {
+                        out.abandoned = Some(format!("sample w{}#{} arrived late (harness timing, no verdict)", id.0, id.1));
+                        out.stat("late_arrivals(no verdict)", 1);
+                        continue;
+                    }
+                }
+            }
             if raw.starts_with("unsure") {
                 out.abandoned = Some(format!("model unsure about an invalid sample: {}", f.what));
                 out.stat("abandoned_unsure_invalid_sample", 1);
@@ -982,6 +1029,7 @@ fn classify_c25_missing(model: &Model, what: &str, arrivals: &BTreeMap<(u32, u32
 /// C23 (and C20): a complete read_next_instance / take_next_instance walk.
 #[allow(clippy::too_many_arguments)]
 async fn walk(
+    w: &World,
     env: &Env,
     model: &mut Model,
     out: &mut Outcome,
@@ -1102,7 +1150,7 @@ async fn walk(
                     return true;
                 }
                 let r = ReadOp { take, sel: Sel::Inst(k), max, ss, vs, is };
-                if judge_collection(env, model, out, &r, &res, oi, arrivals).await {
+                if judge_collection(w, env, model, out, &r, &res, oi, arrivals).await {
                     return true;
                 }
                 visited.push(k);
